@@ -55,10 +55,13 @@ where
         match r {
             Err(p) => return MockRun { verdict: Err(format!("panic: {p}")), outcome, prover: None, k },
             Ok(Err(e)) => {
-                let msg = format!("{e:?}");
+                let msg = format!("{e:?} {}", outcome.error.clone().unwrap_or_default());
                 if msg.contains("NotEnoughRows") && k < 18 {
                     k += 1;
                     continue;
+                }
+                if outcome.stopped.is_some() {
+                    return MockRun { verdict: Err("stopped".into()), outcome, prover: None, k };
                 }
                 return MockRun { verdict: Err(format!("error: {msg}")), outcome, prover: None, k };
             }
